@@ -211,6 +211,54 @@ def run(ctx):
             run_case(cls, acls, [] if h % 2 else init, [("extend", [rng.choice(pool) for _ in range(rng.randint(1, 3))])] + ops, array_args=True)
         else:
             run_case(cls, acls, init, ops)
+    # ---- growth histories: arrays that reach dozens of elements one append at a time, with reversals, pops and reads in between
+    # (storage strategies - over-allocation, buffering - only show beyond a handful of elements) --------------------------------
+    for h in range(40 if ctx.quick else 1500):
+        cls, acls = classes[h % 2]
+        ops = []
+        for _ in range(rng.randint(12, 45)):
+            k = rng.choices(["append", "reverse", "pop", "get", "set", "insert", "len", "extend", "del", "iadd"], [12, 3, 1, 1, 1, 1, 1, 1, 1, 1])[0]
+            i = rng.randint(-3, 12)
+            v = rng.randint(-50, 50)
+            if k in ("get", "del", "pop"): ops.append((k, i))
+            elif k in ("set", "insert"): ops.append((k, i, v))
+            elif k == "append": ops.append((k, v))
+            elif k in ("extend", "iadd"): ops.append((k, [rng.randint(-50, 50) for _ in range(rng.randint(0, 3))]))
+            else: ops.append((k,))
+        run_case(cls, acls, [rng.randint(-5, 5) for _ in range(rng.choice([0, 0, 1, 3]))], ops)
+        ctx.count("history", "growth")
+    # ---- searching with values of other types: index / count / in / remove answer exactly as the list of the same elements does
+    # (a datetime / hightime value is found iff it == an element, position by position; nothing is converted first) ---------------
+    import datetime as dt
+    import hightime as ht
+    u = dt.timezone.utc
+    for cls, acls in classes:
+        if cls is bt.TimeDelta:
+            elems = [bt.TimeDelta(0), bt.TimeDelta(ht.timedelta(microseconds=1)), bt.TimeDelta(1), bt.TimeDelta(ht.timedelta(microseconds=1)), bt.TimeDelta(-2.5),
+                     bt.TimeDelta(ht.timedelta(seconds=3, femtoseconds=7))]
+            needles = [dt.timedelta(0), dt.timedelta(seconds=1), dt.timedelta(microseconds=1), ht.timedelta(microseconds=1), ht.timedelta(seconds=3, femtoseconds=7),
+                       ht.timedelta(seconds=-2.5), ht.timedelta(seconds=1), bt.TimeDelta(1), bt.TimeDelta(5), None, 0, 1, 1.0, "x", bt.DateTime.from_ticks(0)]
+        else:
+            mk = lambda **kw: bt.DateTime(ht.datetime(2024, 5, 6, 7, 8, 9, tzinfo=u, **kw))
+            elems = [mk(), mk(microsecond=1), mk(femtosecond=3), mk(microsecond=1), bt.DateTime.from_ticks(0)]
+            needles = [dt.datetime(2024, 5, 6, 7, 8, 9, tzinfo=u), dt.datetime(2024, 5, 6, 7, 8, 9, 1, tzinfo=u), ht.datetime(2024, 5, 6, 7, 8, 9, 1, tzinfo=u),
+                       ht.datetime(2024, 5, 6, 7, 8, 9, femtosecond=3, tzinfo=u), dt.datetime(1904, 1, 1, tzinfo=u), mk(), bt.DateTime.from_ticks(5), None, 0, "x", bt.TimeDelta(0)]
+        for needle in needles:
+            for opn in ("index", "count", "in", "remove", "index-from", "index-window"):
+                a, l = acls(list(elems)), list(elems)
+                def run_on(c):
+                    if opn == "index": return c.index(needle)
+                    if opn == "count": return c.count(needle)
+                    if opn == "in": return needle in c
+                    if opn == "index-from": return c.index(needle, 2)
+                    if opn == "index-window": return c.index(needle, -4, -1)
+                    c.remove(needle); return None
+                oa, ol = outcome(run_on, a), outcome(run_on, l)
+                ctx.case(("needle", acls.__name__, repr(needle)[:40], opn))
+                same = (oa[0] == ol[0]) and (oa[1] == ol[1] if oa[0] == "ok" else oa[1] == ol[1]) and [x.ticks for x in a] == [x.ticks for x in l]
+                if not same:
+                    ctx.violation(what="searching an array differs from searching the list of its elements", cls=acls.__name__, op=opn, needle=repr(needle)[:80],
+                                  observed=f"{show(oa)[:80]} state={[x.ticks for x in a][:6]}", required=f"{show(ol)[:80]} state={[x.ticks for x in l][:6]}")
     # ---- wrong element / index types: TypeError and nothing inserted; equality; iteration -----------------------------------
     for cls, acls in classes:
         other = bt.DateTime if cls is bt.TimeDelta else bt.TimeDelta
